@@ -246,7 +246,13 @@ def compare(chk, v, tname, W, R, where, vn):
                     continue
                 wr, rr = sym.root_of(wp), sym.root_of(rp)
                 if wr is not None and wr[0] == "var" and rr is not None and rr[0] == "var":
-                    continue   # value computed by the writer into a local, stored from a local by the reader (R4)
+                    # a value the writer computes into a local and the reader stores from a local: the advisory variance,
+                    # which must be the maximum over exactly the rows dumped after it
+                    nxt = ws[i + 1] if i + 1 < len(ws) else None
+                    why = summary_is_max(W["eff"], wr, nxt)
+                    if why:
+                        problems.append("%s (line %s): %s" % (c, w["l"], why))
+                    continue
                 if wp != rp:
                     problems.append("%s (line %s/%s): writer stores %s, reader fills %s" % (c, w["l"], r["l"], sym.show(wp), sym.show(rp)))
             elif w["op"] == "text":
@@ -288,6 +294,44 @@ def compare(chk, v, tname, W, R, where, vn):
 
     cmp_seq(W["ops"], R["ops"], {}, tname)
     return problems, nontriv[0]
+
+
+def summary_is_max(eff, cell, payload):
+    """None if the writer's local `cell` is the maximum of <row>.current_variance over the loop nest of the payload that
+    follows it; otherwise a description of what it is"""
+    from sa import summ
+    stores = []
+    for x, loops, guards, stack, pre in summ.walk_all(eff):
+        if x["e"] == "store" and x["lv"] == cell:
+            stores.append((x, loops, guards))
+    init = [s_ for s_ in stores if not s_[1]]
+    upd = [s_ for s_ in stores if s_[1]]
+    if payload is None or payload["op"] != "rep":
+        return None
+    nest = []
+    o = payload
+    while o["op"] == "rep":
+        nest.append((o["lo"], o["cmp"], o["hi"]))
+        inner = [b for b in o["body"] if b["op"] == "rep"]
+        if len(inner) == 1 and len(o["body"]) == 1:
+            o = inner[0]
+        else:
+            break
+    if len(upd) != 1:
+        vals = [sym.show(s_[0]["val"]) for s_ in stores]
+        return "the value written once before the rows is %s, not the maximum of the rows' variances" % (vals[-1] if vals else "never assigned")
+    x, loops, guards = upd[0]
+    rng = [(l["lo"], l["cmp"], l["hi"]) for l in loops]
+    if rng != nest[:len(rng)] or len(rng) < 2:
+        return "the maximum is taken over %s, the rows are dumped over %s" % (
+            [[sym.show(a) if isinstance(a, tuple) else a for a in r] for r in rng], [[sym.show(a) if isinstance(a, tuple) else a for a in r] for r in nest])
+    V = x["val"]
+    if V[0] != "fld" or V[2] != "current_variance":
+        return "the running value is %s, not a row's variance" % sym.show(V)
+    want_guard = ("fop", ">", V, cell)
+    if guards != [want_guard]:
+        return "the update is guarded by %s, not by 'row variance > running maximum'" % [sym.show(g) for g in guards]
+    return None
 
 
 FMT = re.compile(r"%([-+ #0]*)(\d+)?(?:\.(\d+))?(hh|h|ll|l|L|j|z|t)?([a-zA-Z])")
